@@ -9,6 +9,9 @@ import Pyc.Driver.CoinSel
 import Pyc.Driver.Plutus
 import Pyc.Driver.Cip8
 import Pyc.Driver.Collateral
+import Pyc.Driver.Ids
+import Pyc.Driver.Witness
+import Pyc.Driver.Redeemers
 open Lean Pyc.Driver
 
 /-- dispatch on the prefix of `op` -/
@@ -24,6 +27,9 @@ def dispatch (op : String) (j : Json) : R Json :=
   else if op.startsWith "plutus." then handlePlutus op j
   else if op.startsWith "cip8." then handleCip8 op j
   else if op == "collateral" || op.startsWith "collateral." then handleCollateral op j
+  else if op == "id" || op == "script.gate" then handleIds op j
+  else if op.startsWith "witness." then handleWitness op j
+  else if op == "ranks" || op == "views" || op.startsWith "sdh." || op.startsWith "rd." then handleRedeemers op j
   else throw s!"unknown op {op}"
 
 def handleLine (line : String) : String :=
